@@ -1478,6 +1478,67 @@ fn chan_domain(args: &Args) {
 
 const INITIAL_COMMITMENT_NUMBER: u64 = (1 << 48) - 1;
 
+/// What the counterparty would send with commitment_signed: its funding-key signature on OUR
+/// commitment 0 (no HTLCs), built with LDK from the channel's public parameters.  None when the
+/// channel is not ready (a stub has no parameters).
+fn counterparty_sig_on_holder_commitment_0(
+    node: &Arc<Node>,
+    channel_id: &lightning_signer::channel::ChannelId,
+    cp_funding_key: &lightning_signer::bitcoin::secp256k1::SecretKey,
+    to_holder: u64,
+    to_cp: u64,
+    feerate: u32,
+) -> Option<lightning_signer::bitcoin::secp256k1::ecdsa::Signature> {
+    use lightning_signer::bitcoin::secp256k1::Secp256k1;
+    use lightning_signer::channel::ChannelBase;
+    use lightning_signer::lightning::ln::chan_utils::{
+        make_funding_redeemscript, CommitmentTransaction, HTLCOutputInCommitment, TxCreationKeys,
+    };
+    let secp = Secp256k1::new();
+    catch_unwind(AssertUnwindSafe(|| {
+        node.with_channel(channel_id, |chan| {
+            let pcp = chan.get_per_commitment_point(0)?;
+            let holder = chan.keys.pubkeys().clone();
+            let cp = chan.setup.counterparty_points.clone();
+            let txkeys = TxCreationKeys::derive_new(
+                &secp,
+                &pcp,
+                &holder.delayed_payment_basepoint,
+                &holder.htlc_basepoint,
+                &cp.revocation_basepoint,
+                &cp.htlc_basepoint,
+            );
+            let params = chan.make_channel_parameters();
+            let directed = params.as_holder_broadcastable();
+            let mut htlcs: Vec<(HTLCOutputInCommitment, ())> = vec![];
+            let mut ctx = CommitmentTransaction::new_with_auxiliary_htlc_data(
+                INITIAL_COMMITMENT_NUMBER,
+                to_holder,
+                to_cp,
+                holder.funding_pubkey,
+                cp.funding_pubkey,
+                txkeys,
+                feerate,
+                &mut htlcs,
+                &directed,
+            );
+            if chan.setup.is_anchors() {
+                ctx = ctx.with_non_zero_fee_anchors();
+            }
+            let redeem = make_funding_redeemscript(&holder.funding_pubkey, &cp.funding_pubkey);
+            let trusted = ctx.trust();
+            Ok(trusted.built_transaction().sign_counterparty_commitment(
+                cp_funding_key,
+                &redeem,
+                chan.setup.channel_value_sat,
+                &secp,
+            ))
+        })
+    }))
+    .ok()
+    .and_then(|r| r.ok())
+}
+
 fn coq_lop_setup(s: &Setup) -> String {
     format!("LSetup {}", coq_setup(s))
 }
@@ -1621,48 +1682,8 @@ fn life_domain(args: &Args) {
                 ops.push(format!("LValidateHolder {} {} 0 {}", coq_est(&est), coq_chain(&cs), coq_info(&holder_info)));
                 // what the counterparty would send: its signature on our commitment 0 (only possible
                 // when the channel is ready; a stub gets a dummy signature and must refuse anyway)
-                let sig: Option<Signature> = catch_unwind(AssertUnwindSafe(|| {
-                    node.with_channel(&channel_id, |chan| {
-                        let pcp = chan.get_per_commitment_point(0)?;
-                        let holder = chan.keys.pubkeys().clone();
-                        let cp = chan.setup.counterparty_points.clone();
-                        let txkeys = TxCreationKeys::derive_new(
-                            &secp,
-                            &pcp,
-                            &holder.delayed_payment_basepoint,
-                            &holder.htlc_basepoint,
-                            &cp.revocation_basepoint,
-                            &cp.htlc_basepoint,
-                        );
-                        let params = chan.make_channel_parameters();
-                        let directed = params.as_holder_broadcastable();
-                        let mut htlcs: Vec<(HTLCOutputInCommitment, ())> = vec![];
-                        let mut ctx = CommitmentTransaction::new_with_auxiliary_htlc_data(
-                            INITIAL_COMMITMENT_NUMBER,
-                            to_holder,
-                            to_cp,
-                            holder.funding_pubkey,
-                            cp.funding_pubkey,
-                            txkeys,
-                            feerate,
-                            &mut htlcs,
-                            &directed,
-                        );
-                        if chan.setup.is_anchors() {
-                            ctx = ctx.with_non_zero_fee_anchors();
-                        }
-                        let redeem = make_funding_redeemscript(&holder.funding_pubkey, &cp.funding_pubkey);
-                        let trusted = ctx.trust();
-                        Ok(trusted.built_transaction().sign_counterparty_commitment(
-                            &make_test_privkey(104),
-                            &redeem,
-                            chan.setup.channel_value_sat,
-                            &secp,
-                        ))
-                    })
-                }))
-                .ok()
-                .and_then(|r| r.ok());
+                let sig: Option<Signature> =
+                    counterparty_sig_on_holder_commitment_0(&node, &channel_id, &make_test_privkey(104), to_holder, to_cp, feerate);
                 let dummy = Signature::from_compact(&[1u8; 64]).expect("sig");
                 let sig = sig.unwrap_or(dummy);
                 let r = catch_unwind(AssertUnwindSafe(|| {
@@ -1771,6 +1792,422 @@ fn life_domain(args: &Args) {
         "accepted_commitments": accepted_commitments, "monitor_failures": monitor_failures}));
 }
 
+// ------------------------------------------------------------------ wire: channels set up through protocol messages
+
+/// CLN-style channel_type bytes for a set of feature bits (bit i lives in byte len-1-i/8, value
+/// 1 << (i % 8)); `pad` extra leading zero bytes
+fn channel_type_bytes(bits: &[usize], pad: usize) -> Vec<u8> {
+    let max = bits.iter().copied().max();
+    let len = max.map(|m| m / 8 + 1).unwrap_or(0) + pad;
+    let mut v = vec![0u8; len];
+    for b in bits {
+        v[len - 1 - b / 8] |= 1 << (b % 8);
+    }
+    v
+}
+
+/// Channels created and set up the way the daemon does it: NewChannel to the RootHandler,
+/// SetupChannel to the ChannelHandler (as_vec -> from_vec), every SetupChannel field varied; then
+/// (a) the channel's ChannelSetup is read back and compared field by field with an independent
+/// statement of the mapping, (b) initial-commitment requests (SignRemoteCommitmentTx2,
+/// ValidateCommitmentTx2 with a genuine counterparty signature) are checked against the bounds
+/// computed from the WIRE values, by the model (life_case) and by the u128 monitor.
+fn wire_domain(args: &Args) {
+    use lightning_signer::bitcoin::hashes::Hash;
+    use lightning_signer::bitcoin::secp256k1::ecdsa::Signature;
+    use lightning_signer::bitcoin::{BlockHash, OutPoint, Txid};
+    use lightning_signer::util::test_utils::key::make_test_privkey;
+    use vls_protocol::model::{self, Basepoints, BitcoinSignature, PubKey};
+    use vls_protocol::msgs::{self, Message, SerBolt};
+    use vls_protocol::serde_bolt::{Array, Octets};
+    use vls_protocol_signer::approver::PositiveApprover;
+    use vls_protocol_signer::handler::{Handler, InitHandler, RootHandler};
+    let mut rng = Rng::new(args.seed ^ 0x3172e);
+    let release = !overflow_checks();
+    let mut dist: std::collections::BTreeMap<String, u64> = Default::default();
+    let (mut monitor_failures, mut readbacks, mut fields_compared, mut accepted_commitments, mut nonzero_push_outbound) = (0u64, 0u64, 0u64, 0u64, 0u64);
+    let allow_addr = lightning_signer::bitcoin::Address::p2wpkh(&make_test_bitcoin_pubkey(42), NETWORK);
+    let allowed = allow_addr.script_pubkey();
+    let foreign = lightning_signer::bitcoin::Address::p2wpkh(&make_test_bitcoin_pubkey(43), NETWORK).script_pubkey();
+    let remote_script = lightning_signer::bitcoin::Address::p2wpkh(&make_test_bitcoin_pubkey(44), NETWORK).script_pubkey();
+    for id in 0..args.n {
+        let (mind, maxd) = *rng.pick(&[(4u16, 2016u16), (4, 2016), (144, 2016), (6, 6)]);
+        let maxsize = *rng.pick(&[1_000_000_001u64, 10_000_000_000]);
+        let rules = match rng.below(10) {
+            0 => vec![("policy-commitment-initial-funding-value".to_string(), false, true)],
+            1 => vec![("policy-channel-".to_string(), true, true)],
+            _ => vec![],
+        };
+        let pol = Pol {
+            min_delay: mind,
+            max_delay: maxd,
+            max_channel_size_sat: maxsize,
+            max_htlcs: 1000,
+            max_htlc_value_sat: 16_777_216,
+            use_chain_state: false,
+            min_feerate: 253,
+            max_feerate: 333_333,
+            rules,
+        };
+        // ---- the wire values
+        // mostly valid; `perturb` picks the one kind of field that is pushed over an edge
+        let perturb = if rng.chance(2, 5) { rng.below(6) } else { 99 };
+        let is_outbound = rng.chance(2, 3);
+        let cv = if perturb == 0 { maxsize + 1 } else { *rng.pick(&[3_000_000u64, 16_777_216, 1_000_000_000, maxsize]) };
+        let cv_msat = cv as u128 * 1000;
+        let push_msat: u64 = clamp64(if perturb == 1 {
+            *rng.pick(&[cv_msat + 1, cv_msat, 1, 999, 1000, 1001])
+        } else {
+            *rng.pick(&[
+                0u128,
+                354_000,
+                354_999,
+                1_000_000,
+                10_000_000,
+                cv as u128,     // 0.1 % of the channel, as msat
+                cv as u128 / 2,
+                cv_msat / 100,
+                cv_msat / 2,
+            ])
+        });
+        let mut txid_bytes = rng.bytes32();
+        txid_bytes[0] = id as u8;
+        let funding_txid = Txid::from_byte_array(txid_bytes);
+        let funding_txout = *rng.pick(&[0u16, 0, 1, 7, 65535]);
+        let dgood = |rng: &mut Rng| -> u16 { *rng.pick(&[mind, maxd, mind.max(6).min(maxd), maxd.min(144).max(mind)]) };
+        let dbad = |rng: &mut Rng| -> u16 { *rng.pick(&[mind.wrapping_sub(1), maxd.wrapping_add(1), 0, 65535]) };
+        let to_self_delay = if perturb == 2 { dbad(&mut rng) } else { dgood(&mut rng) };
+        let remote_to_self_delay = if perturb == 3 { dbad(&mut rng) } else { dgood(&mut rng) };
+        let shutdown = if perturb == 4 { 2u8 } else { *rng.pick(&[0u8, 0, 1]) };
+        let local_script: Vec<u8> = match shutdown {
+            0 => vec![],
+            1 => allowed.to_bytes(),
+            _ => foreign.to_bytes(),
+        };
+        let wallet_index = *rng.pick(&[None, None, Some(0u32), Some(5)]);
+        let key_base = *rng.pick(&[100u8, 110, 120]);
+        let remote_script_bytes: Vec<u8> = if rng.chance(1, 2) { vec![] } else { remote_script.to_bytes() };
+        let (bits, ctype): (Vec<usize>, u8) = if perturb == 5 {
+            if rng.chance(1, 2) { (vec![], 0) } else { (vec![12, 20], 2) }
+        } else {
+            match rng.below(5) {
+                0 | 1 => (vec![12], 1),
+                2 => (vec![12, 22], 3),
+                3 => (vec![12, 20, 22], 3),
+                _ => (vec![12, 13], 1),
+            }
+        };
+        let channel_type = channel_type_bytes(&bits, rng.below(2) as usize);
+        let pk = |i: u8| PubKey(make_test_pubkey(i).serialize());
+        // ---- the independent statement of the mapping (units: SetupChannel.push_value is msat)
+        let wire_setup = Setup {
+            is_outbound,
+            channel_value_sat: cv,
+            push_value_msat: push_msat,
+            holder_delay: to_self_delay,
+            cp_delay: remote_to_self_delay,
+            ctype,
+            shutdown,
+        };
+        if is_outbound && push_msat > 0 && (push_msat as u128) <= cv_msat {
+            nonzero_push_outbound += 1;
+        }
+
+        // ---- node, handlers, messages
+        let mut seed = [0u8; 32];
+        seed[0] = (id % 251) as u8;
+        seed[1] = 0x31;
+        let mut world = World::new(real_policy(&pol), seed, KeyDerivationStyle::Native);
+        let onchain = rng.chance(1, 3);
+        world.onchain = onchain;
+        let node = world.new_node();
+        node.add_allowlist(&vec![allow_addr.to_string()]).expect("allowlist");
+        let proto = *rng.pick(&[4u32, 5, 6]);
+        let mut init = InitHandler::new(0, node.clone(), Arc::new(PositiveApprover()), proto);
+        init.handle(Message::HsmdInit(msgs::HsmdInit {
+            key_version: model::Bip32KeyVersion { pubkey_version: 0, privkey_version: 0 },
+            chain_params: BlockHash::all_zeros(),
+            encryption_key: None,
+            dev_privkey: None,
+            dev_bip32_seed: None,
+            dev_channel_secrets: None,
+            dev_channel_secrets_shaseed: None,
+            hsm_wire_min_version: 2,
+            hsm_wire_max_version: proto,
+        }))
+        .expect("init");
+        let root: RootHandler = init.into();
+        let peer = [2u8; 33];
+        let dbid = 1 + (id as u64 % 1000);
+        let send = |h: &dyn Fn(Message) -> Result<Box<dyn SerBolt>, vls_protocol_signer::handler::Error>, bytes: Vec<u8>| -> (u64, String) {
+            let msg = msgs::from_vec(bytes).expect("request survives the wire");
+            match catch_unwind(AssertUnwindSafe(|| h(msg))) {
+                Err(_) => (1, "panic".to_string()),
+                Ok(Ok(reply)) => {
+                    let _ = msgs::from_vec(reply.as_vec()).expect("reply survives the wire");
+                    (0, String::new())
+                }
+                Ok(Err(e)) => (2, format!("{:?}", e).chars().take(200).collect()),
+            }
+        };
+        let (o_new, st_new) = send(&|m| root.handle(m), msgs::NewChannel { peer_id: PubKey(peer), dbid }.as_vec());
+        assert_eq!(o_new, 0, "NewChannel: {}", st_new);
+        let handler = root.for_new_client(1, PubKey(peer), dbid);
+        let channel_id = node.get_channels().keys().next().expect("one channel").clone();
+        let setup_msg = msgs::SetupChannel {
+            is_outbound,
+            channel_value: cv,
+            push_value: push_msat,
+            funding_txid,
+            funding_txout,
+            to_self_delay,
+            local_shutdown_script: Octets(local_script.clone()),
+            local_shutdown_wallet_index: wallet_index,
+            remote_basepoints: Basepoints {
+                revocation: pk(key_base),
+                payment: pk(key_base + 1),
+                htlc: pk(key_base + 3),
+                delayed_payment: pk(key_base + 2),
+            },
+            remote_funding_pubkey: pk(key_base + 4),
+            remote_to_self_delay,
+            remote_shutdown_script: Octets(remote_script_bytes.clone()),
+            channel_type: Octets(channel_type.clone()),
+        };
+        let mut ops: Vec<String> = vec![];
+        let mut obs: Vec<u64> = vec![];
+        let mut steps: Vec<Value> = vec![];
+        let mut viols: Vec<String> = vec![];
+        let (o_setup, st_setup) = send(&|m| handler.handle(m), setup_msg.as_vec());
+        ops.push(coq_lop_setup(&wire_setup));
+        obs.push(o_setup);
+        *dist.entry(format!("SetupChannel:{}", o_setup)).or_insert(0) += 1;
+        steps.push(json!({"message": "SetupChannel", "observed": (["ok", "panic", "refused"][o_setup as usize]), "status": st_setup}));
+        // ---- (a) read the ChannelSetup back and compare every field with the wire values
+        let mut readback: Option<Value> = None;
+        if o_setup == 0 {
+            let got = node.with_channel(&channel_id, |chan| Ok(chan.setup.clone()));
+            match got {
+                Err(_) => viols.push("SetupChannel answered Ok but the channel is not ready".to_string()),
+                Ok(g) => {
+                    readbacks += 1;
+                    let mut cmp = |name: &str, wire: String, chan: String| {
+                        fields_compared += 1;
+                        if wire != chan {
+                            viols.push(format!("ChannelSetup.{} = {} but the SetupChannel message says {}", name, chan, wire));
+                        }
+                    };
+                    cmp("is_outbound", is_outbound.to_string(), g.is_outbound.to_string());
+                    cmp("channel_value_sat", cv.to_string(), g.channel_value_sat.to_string());
+                    cmp("push_value_msat (wire push_value is msat)", push_msat.to_string(), g.push_value_msat.to_string());
+                    cmp(
+                        "funding_outpoint",
+                        format!("{}:{}", funding_txid, funding_txout as u32),
+                        format!("{}:{}", g.funding_outpoint.txid, g.funding_outpoint.vout),
+                    );
+                    cmp("holder_selected_contest_delay (to_self_delay)", to_self_delay.to_string(), g.holder_selected_contest_delay.to_string());
+                    cmp(
+                        "counterparty_selected_contest_delay (remote_to_self_delay)",
+                        remote_to_self_delay.to_string(),
+                        g.counterparty_selected_contest_delay.to_string(),
+                    );
+                    let sc = |v: &Vec<u8>| if v.is_empty() { "none".to_string() } else { hex::encode(v) };
+                    cmp(
+                        "holder_shutdown_script",
+                        sc(&local_script),
+                        g.holder_shutdown_script.as_ref().map(|x| hex::encode(x.as_bytes())).unwrap_or("none".to_string()),
+                    );
+                    cmp(
+                        "counterparty_shutdown_script",
+                        sc(&remote_script_bytes),
+                        g.counterparty_shutdown_script.as_ref().map(|x| hex::encode(x.as_bytes())).unwrap_or("none".to_string()),
+                    );
+                    let cpp = &g.counterparty_points;
+                    cmp("counterparty_points.funding_pubkey", make_test_pubkey(key_base + 4).to_string(), cpp.funding_pubkey.to_string());
+                    cmp("counterparty_points.revocation_basepoint", make_test_pubkey(key_base).to_string(), cpp.revocation_basepoint.0.to_string());
+                    cmp("counterparty_points.payment_point", make_test_pubkey(key_base + 1).to_string(), cpp.payment_point.to_string());
+                    cmp(
+                        "counterparty_points.delayed_payment_basepoint",
+                        make_test_pubkey(key_base + 2).to_string(),
+                        cpp.delayed_payment_basepoint.0.to_string(),
+                    );
+                    cmp("counterparty_points.htlc_basepoint", make_test_pubkey(key_base + 3).to_string(), cpp.htlc_basepoint.0.to_string());
+                    cmp("commitment_type", ctype_name(ctype).to_string(), format!("{:?}", g.commitment_type));
+                    readback = Some(json!({"is_outbound": g.is_outbound, "channel_value_sat": g.channel_value_sat,
+                        "push_value_msat": g.push_value_msat, "funding_vout": g.funding_outpoint.vout,
+                        "holder_selected_contest_delay": g.holder_selected_contest_delay,
+                        "counterparty_selected_contest_delay": g.counterparty_selected_contest_delay,
+                        "commitment_type": format!("{:?}", g.commitment_type)}));
+                }
+            }
+            // the accepted setup must satisfy the setup bounds (wire values)
+            let mut v: Vec<&'static str> = vec![];
+            if !(ctype == 1 || ctype == 3) {
+                v.push("unsafe commitment type accepted");
+            }
+            if remote_to_self_delay < mind || remote_to_self_delay > maxd {
+                v.push("counterparty-selected contest delay outside policy accepted");
+            }
+            if to_self_delay < mind || to_self_delay > maxd {
+                v.push("holder-selected contest delay outside policy accepted");
+            }
+            if shutdown == 2 {
+                v.push("foreign shutdown script accepted");
+            }
+            for m in not_downgraded(&pol.rules, v) {
+                viols.push(format!("SetupChannel answered Ok: {}", m));
+            }
+        }
+        // ---- (b) initial-commitment requests, allocations derived from the WIRE push value
+        let w = weight(ctype, 0);
+        let (flo, fhi) = fee_window(pol.min_feerate, pol.max_feerate, w);
+        let fee = *rng.pick(&[flo, fhi, (flo + fhi) / 2]);
+        let p = push_msat / 1000;
+        let feerate = 253u32;
+        let fit = |a: u128| -> Option<(u64, u64)> {
+            // (to_holder, to_counterparty) for a counterparty allocation a
+            if a + fee <= cv as u128 {
+                Some((clamp64(cv as u128 - fee - a), clamp64(a)))
+            } else {
+                None
+            }
+        };
+        let mut allocs: Vec<(&str, (u64, u64))> = vec![];
+        if is_outbound {
+            // we fund: the fundee may get push/1000 sat and not one more
+            for (name, a) in [
+                ("fundee gets 1000x the push", p as u128 * 1000),
+                ("fundee gets the msat figure as sat", push_msat as u128),
+                ("fundee gets push + 1 sat", p as u128 + 1),
+                ("fundee gets exactly the push", p as u128),
+            ] {
+                if let Some(x) = fit(a) {
+                    if name == "fundee gets exactly the push" || rng.chance(2, 3) {
+                        allocs.push((name, x));
+                    }
+                }
+            }
+        } else {
+            // we are the fundee: we get the push, the funder the rest
+            if let Some((rest, ours)) = fit(p as u128) {
+                allocs.push(("holder gets the push", (ours, rest)));
+            }
+        }
+        let mut est = Est { next_holder: 0, next_cp_commit: 0, next_cp_revoke: 0, closed: false, cp_point: 0, cp_info_same: false, holder_info: 0 };
+        let cs = Chain { current_height: 0, funding_depth: 0, closing_depth: 0 };
+        let point = make_test_pubkey(10);
+        let mut signed_info: Option<Info> = None;
+        let mut last: Option<(u64, u64)> = None;
+        for (name, (to_holder, to_cp)) in allocs.iter() {
+            let info = Info { cp_broadcaster: true, to_countersigner: *to_holder, to_broadcaster: *to_cp, offered: vec![], received: vec![], feerate };
+            if let Some(prev) = &signed_info {
+                est.cp_info_same = prev.to_countersigner == info.to_countersigner && prev.to_broadcaster == info.to_broadcaster;
+            }
+            ops.push(format!("LSignCp {} {} 0 {}", coq_est(&est), coq_chain(&cs), coq_info(&info)));
+            let m = msgs::SignRemoteCommitmentTx2 {
+                remote_per_commitment_point: PubKey(point.serialize()),
+                commitment_number: 0,
+                feerate,
+                to_local_value_sat: *to_holder,
+                to_remote_value_sat: *to_cp,
+                htlcs: Array(vec![]),
+            };
+            let (o, st) = send(&|m| handler.handle(m), m.as_vec());
+            obs.push(o);
+            *dist.entry(format!("SignRemoteCommitmentTx2:{}", o)).or_insert(0) += 1;
+            if o == 0 {
+                accepted_commitments += 1;
+                if o_setup != 0 {
+                    viols.push("SignRemoteCommitmentTx2: commitment 0 signed on a channel whose SetupChannel was refused".to_string());
+                }
+                let case = Case { pol: pol.clone(), entry: if onchain { 2 } else { 0 }, est: est.clone(), setup: wire_setup.clone(), cs: cs.clone(), n: 0, info: info.clone() };
+                if !ref_warned(&pol.rules, "policy-funding-max") && cv > maxsize {
+                    viols.push("SignRemoteCommitmentTx2: signed for a channel above max_channel_size_sat".to_string());
+                }
+                let (rv, _) = reference_violations(&case, release);
+                for m in not_downgraded(&pol.rules, rv) {
+                    viols.push(format!(
+                        "SignRemoteCommitmentTx2 ({}; wire push_value {} msat = {} sat; to_remote_value_sat {}): {}",
+                        name, push_msat, p, to_cp, m
+                    ));
+                }
+                if signed_info.is_none() {
+                    signed_info = Some(info.clone());
+                    est.next_cp_commit = 1;
+                    est.cp_point = 1;
+                    est.cp_info_same = true;
+                }
+            }
+            last = Some((*to_holder, *to_cp));
+            steps.push(json!({"message": "SignRemoteCommitmentTx2", "allocation": name, "commitment_number": 0, "feerate": feerate,
+                "to_local_value_sat": to_holder, "to_remote_value_sat": to_cp,
+                "observed": (["ok", "panic", "refused"][o as usize]), "status": st}));
+        }
+        // our own commitment 0 with the last allocation, counterparty signature genuine when possible
+        if let Some((to_holder, to_cp)) = last {
+            let info = Info { cp_broadcaster: false, to_countersigner: to_cp, to_broadcaster: to_holder, offered: vec![], received: vec![], feerate };
+            ops.push(format!("LValidateHolder {} {} 0 {}", coq_est(&est), coq_chain(&cs), coq_info(&info)));
+            let sig = counterparty_sig_on_holder_commitment_0(&node, &channel_id, &make_test_privkey(key_base + 4), to_holder, to_cp, feerate)
+                .unwrap_or(Signature::from_compact(&[1u8; 64]).expect("sig"));
+            let m = msgs::ValidateCommitmentTx2 {
+                commitment_number: 0,
+                feerate,
+                to_local_value_sat: to_holder,
+                to_remote_value_sat: to_cp,
+                htlcs: Array(vec![]),
+                signature: BitcoinSignature { signature: model::Signature(sig.serialize_compact()), sighash: 1 },
+                htlc_signatures: Array(vec![]),
+            };
+            let (o, st) = send(&|m| handler.handle(m), m.as_vec());
+            obs.push(o);
+            *dist.entry(format!("ValidateCommitmentTx2:{}", o)).or_insert(0) += 1;
+            if o == 0 {
+                accepted_commitments += 1;
+                if o_setup != 0 {
+                    viols.push("ValidateCommitmentTx2: commitment 0 accepted on a channel whose SetupChannel was refused".to_string());
+                }
+                let case = Case { pol: pol.clone(), entry: if onchain { 3 } else { 1 }, est: est.clone(), setup: wire_setup.clone(), cs: cs.clone(), n: 0, info: info.clone() };
+                let (rv, _) = reference_violations(&case, release);
+                for m in not_downgraded(&pol.rules, rv) {
+                    viols.push(format!("ValidateCommitmentTx2 (wire push_value {} msat; to_remote_value_sat {}): {}", push_msat, to_cp, m));
+                }
+            }
+            steps.push(json!({"message": "ValidateCommitmentTx2", "commitment_number": 0, "to_local_value_sat": to_holder,
+                "to_remote_value_sat": to_cp, "observed": (["ok", "panic", "refused"][o as usize]), "status": st}));
+        }
+        if !viols.is_empty() {
+            monitor_failures += 1;
+        }
+        let coq = format!(
+            "(({}, {}, {}, {}), {}, {})",
+            profile_name(),
+            coq_rules(&pol.rules),
+            coq_pol(&pol),
+            coq_bool(onchain),
+            coq_list(&ops),
+            coq_nlist(&obs)
+        );
+        emit(
+            "CASE",
+            json!({"id": id, "kind": "wire", "protocol_version": proto, "validator": if onchain { "onchain" } else { "simple" },
+                   "policy": {"min_delay": mind, "max_delay": maxd, "max_channel_size_sat": maxsize, "filter_rules": pol.rules},
+                   "SetupChannel": {"is_outbound": is_outbound, "channel_value": cv, "push_value(msat)": push_msat,
+                        "funding_txid": funding_txid.to_string(), "funding_txout": funding_txout, "to_self_delay": to_self_delay,
+                        "remote_to_self_delay": remote_to_self_delay,
+                        "local_shutdown_script": (["empty", "allowlisted", "foreign"][shutdown as usize]),
+                        "local_shutdown_wallet_index": wallet_index, "remote_key_base": key_base,
+                        "remote_shutdown_script_len": remote_script_bytes.len(),
+                        "channel_type": hex::encode(&channel_type), "channel_type_bits": bits},
+                   "channel_setup_read_back": readback,
+                   "steps": steps, "monitor_violation": viols, "coq": coq}),
+        );
+    }
+    emit("STATS", json!({"kind": "wire", "profile": profile_name(), "observed_distribution": dist,
+        "setups_read_back": readbacks, "setup_fields_compared": fields_compared,
+        "outbound_channels_with_nonzero_push": nonzero_push_outbound,
+        "accepted_commitments": accepted_commitments, "monitor_failures": monitor_failures}));
+}
+
 fn main() {
     std::panic::set_hook(Box::new(|_| {}));
     let argv: Vec<String> = std::env::args().collect();
@@ -1780,6 +2217,7 @@ fn main() {
         "setup" => setup_domain(&args),
         "chan" => chan_domain(&args),
         "life" => life_domain(&args),
+        "wire" => wire_domain(&args),
         other => {
             eprintln!("unknown sub-domain {}", other);
             std::process::exit(2)
